@@ -54,19 +54,23 @@ def big_message_cases(ck, exe):
     """>= 2^29-byte messages (bit length >= 2^32) streamed from a sparse file, production constants not needed"""
     import os, subprocess
     res = []
-    n = (1 << 29) + 3
-    path = os.path.join(ck.scratch, "big.bin")
-    with open(path, "wb") as f:
-        f.truncate(n)
-    for alg in (0, 1, 2):
-        h = PY[alg]()
-        z = b"\x00" * (1 << 20)
-        left = n
-        while left:
-            k = min(left, len(z))
-            h.update(z[:k])
-            left -= k
-        res.append((alg, path, n, h.hexdigest()))
+    # bit length >= 2^32 (all three), and byte length >= 2^32 (one algorithm: ~40 s) when the proof is broken or VERIF_HUGE=1
+    sizes = [((1 << 29) + 3, (0, 1, 2))]
+    if not ck.proof_ok or os.environ.get("VERIF_HUGE") == "1":
+        sizes.append(((1 << 32) + 100, (1,)))
+    for n, algs in sizes:
+        path = os.path.join(ck.scratch, "big_%d.bin" % n)
+        with open(path, "wb") as f:
+            f.truncate(n)
+        for alg in algs:
+            h = PY[alg]()
+            z = b"\x00" * (1 << 22)
+            left = n
+            while left:
+                k = min(left, len(z))
+                h.update(z[:k])
+                left -= k
+            res.append((alg, path, n, h.hexdigest()))
     return res
 
 
